@@ -55,6 +55,35 @@ def other_space_element(space):
     return odl.rn(int(space.size) + 1).one()
 
 
+def near_miss_outs(space):
+    """concrete objects of the right shape that are not elements of ``space``"""
+    from symnp import proxy
+    was = proxy.STATE.armed
+    proxy.STATE.armed = False
+    try:
+        out = []
+        if hasattr(space, 'spaces') or isinstance(space, Field) or not hasattr(space, 'dtype'):
+            return out
+        shape = space.shape
+        if np.dtype(space.dtype) == np.dtype('float64'):
+            for tag, dt in (('float32-element', 'float32'), ('complex-element', 'complex128')):
+                try:
+                    if hasattr(space, 'partition'):
+                        el = odl.uniform_discr_frompartition(space.partition, dtype=dt).zero()
+                    else:
+                        el = odl.tensor_space(shape, dtype=dt).zero()
+                except Exception:
+                    continue
+                out.append((tag, el))
+        if not hasattr(space, 'partition') and np.dtype(space.dtype).kind == 'f':
+            out.append(('other-weighting', odl.rn(shape, dtype=space.dtype, weighting=3.5).zero()))
+        out.append(('ndarray', np.zeros(shape, dtype=np.dtype(space.dtype))))
+        out.append(('list', np.zeros(shape).tolist()))
+        return out
+    finally:
+        proxy.STATE.armed = was
+
+
 class AliasOp(odl.Operator):
     """Leaf whose out-of-place call legally returns its argument (as RealPart does on real spaces)."""
 
@@ -125,6 +154,12 @@ def case(ctx, kind, recipe=None):
         badpre = bad.asarray().copy()
         ctx.expect_raises('wrong-out-rejected', OpTypeError, lambda: op(x, out=bad))
         ctx.fact('wrong-out-untouched', np.array_equal(bad.asarray(), badpre))
+        # near misses: right shape, but not an element of the range (other dtype / weighting, plain array, list)
+        for tag, nb in near_miss_outs(op.range):
+            nbpre = np.array(nb, dtype=complex, copy=True) if not hasattr(nb, 'asarray') else nb.asarray().copy()
+            ctx.expect_raises('near-miss-out-rejected/' + tag, OpTypeError, lambda nb=nb: op(x, out=nb))
+            now = np.array(nb, dtype=complex) if not hasattr(nb, 'asarray') else nb.asarray()
+            ctx.fact('near-miss-out-untouched/' + tag, np.array_equal(now, nbpre))
     else:
         ctx.eq('value-deterministic', op(x), r0)
     wrong = other_space_element(op.domain)
